@@ -13,6 +13,7 @@ PROPS = {
     'C14': 'rsym.props.c14',
     'C15': 'rsym.props.c15',
     'C16': 'rsym.props.c16',
+    'C17': 'rsym.props.c17',
     'C18': 'rsym.props.c18',
     'C24': 'rsym.props.c24',
     'C25': 'rsym.props.c25',
